@@ -243,6 +243,8 @@ def run_impl(prog):
         run_block(prog)
     except Boom:
         out = "raised"
+    except Exception as e:  # noqa  (an exception that is not the program's own: raised by __enter__/__exit__ themselves)
+        out = f"crashed:{type(e).__name__}: {str(e)[:60]}"
     after = list(L.sol_list)
     same = len(before) == len(after) and all(a is b for a, b in zip(before, after))
     final = stack_ids()
@@ -254,6 +256,9 @@ def run_impl(prog):
 def check_prog(ctx, prog):
     final, events, out, same = run_impl(prog)
     replay = {"prog": prog}
+    if out.startswith("crashed:"):
+        ctx.violation("C17:with-protocol-raised", f"entering or leaving a with-block raised by itself ({out[8:]}); stack (top first) now {final}", replay)
+        return False
     if not same:
         ctx.violation("C17:stack-unbalanced", f"sol_list after the program differs from before (top-first ids now {final})", replay)
         return False
